@@ -266,10 +266,10 @@ PROPS = {
     ),
     "C02": dict(
         module="Hb.Props.C02",
-        more_modules=["Hb.Props.C02SetTable"],
+        more_modules=["Hb.Props.C02SetTable", "Hb.Props.C02Forget"],
         ties=[("scen", "mixed", 300, 10000), ("scen", "saturate", 80, 3000), ("scen", "entry-full", 120, 4000),
               ("scen", "table", 150, 5000), ("scen", "set", 100, 3000), ("scen", "iter", 100, 3000),
-              ("scen", "panic-mixed", 4, 120), ("scen", "reserve", 100, 3000), ("scen", "clone", 80, 3000), ("custom", miri_support), ("custom", extras_oracle)],
+              ("scen", "panic-mixed", 4, 120), ("scen", "reserve", 100, 3000), ("scen", "clone", 80, 3000), ("custom", miri_support), ("custom", extras_oracle), ("t1", {})],
         backends=["sse2", "portable"],
         design="§7 C02",
         text="Proof of the index/ownership logic: in the Lean model every raw access is checked (control byte outside "
@@ -290,7 +290,11 @@ PROPS = {
         note="PARTIAL for the machine level: the model cannot exhibit pointer provenance/aliasing (Stacked/Tree Borrows), reads of "
              "uninitialised bytes as such, the SIMD loads or code generation; those are only exercised by the supporting "
              "validation above (not proof). Trusted: Lean kernel, axioms propext/Classical.choice/Quot.sound; harness/hooks. "
-             "Entry objects and iterators being forgotten mid-use are covered for drain (theorem) and by the tie for entries. "
+             "Leaked objects: Hb.Props.C02Forget proves for every environment that leaking an ExtractIf after k steps, any borrowing "
+             "iterator (incl. writes through IterMut / ValuesMut), an entry of any family right after creation (rustc_entry / "
+             "HashTable::entry: the state after their reserve(1)), an OccupiedEntry after in-place updates or a VacantEntry's "
+             "insertion result, an owning iterator after k steps, or a Drain leaves a table with the API invariant from which ANY "
+             "further history is safe (leak_then_any_history_safe); scope guards are never handed to the user. "
              "Thorough tier adds a reduced set of generated histories executed under Miri (supporting validation of the "
              "machine level, not proof): a Miri UB/leak report or a Miri-vs-native difference is reported with the history.",
     ),
@@ -299,7 +303,7 @@ PROPS = {
         more_modules=["Hb.Props.C03SetTable"],
         ties=[("scen", "mixed", 300, 10000), ("scen", "iter", 150, 4000), ("scen", "entry", 150, 4000),
               ("scen", "table", 120, 4000), ("scen", "set", 100, 3000), ("scen", "reserve", 100, 3000), ("scen", "clone", 80, 3000),
-              ("scen", "panic-mixed", 4, 120), ("scen", "par", 80, 2000, ["sse2"])],
+              ("scen", "panic-mixed", 4, 120), ("scen", "par", 80, 2000, ["sse2"]), ("t1", {})],
         backends=["sse2", "portable"],
         design="§7 C03",
         text="Lean ledger theorems for every environment in which the calls return (released_exactly_once_all_calls covers the whole "
@@ -325,7 +329,7 @@ PROPS = {
     "C05": dict(
         module="Hb.Props.C05",
         ties=[("scen", "broken-hash", 200, 6000), ("scen", "broken-eq", 200, 6000), ("scen", "broken-both", 150, 5000),
-              ("scen", "broken-sat", 60, 2000), ("scen", "broken-entry", 100, 3000), ("scen", "broken-table", 100, 3000), ("scen", "broken-set", 120, 3000)],
+              ("scen", "broken-sat", 60, 2000), ("scen", "broken-entry", 100, 3000), ("scen", "broken-table", 100, 3000), ("scen", "broken-set", 120, 3000), ("t1", {})],
         backends=["sse2", "portable"],
         design="§7 C05",
         text="Lean theorems quantified over ARBITRARY environments (hash and eq answers are functions of the call number: "
@@ -343,8 +347,9 @@ PROPS = {
     ),
     "C04": dict(
         module="Hb.Props.C04",
+        more_modules=["Hb.Props.C04SetLedger"],
         ties=[("scen", "panic-sat-nodrop", 6, 150), ("scen", "panic-sat-drop", 6, 150), ("scen", "panic-mixed", 8, 200),
-              ("scen", "panic-entry", 5, 120), ("scen", "entry", 150, 4000), ("scen", "panic-table", 4, 100), ("scen", "panic-set", 3, 80)],
+              ("scen", "panic-entry", 5, 120), ("scen", "entry", 150, 4000), ("scen", "panic-table", 4, 100), ("scen", "panic-set", 3, 80), ("t1", {})],
         backends=["sse2", "portable"],
         design="§7 C04, §10 F1",
         text="Lean theorems for every environment and every history with panics at ANY callback invocation: after every call, "
@@ -362,14 +367,16 @@ PROPS = {
              "invariant, ownership ledger: no double drop / no leak unless a destructor panicked, len = #yielded = #found).",
         note="Trusted: Lean kernel, axioms propext/Classical.choice/Quot.sound; harness, hooks, protocol. Callback classes "
              "Into (entry_ref) and extend-iterator panics are covered by the entry profile once C14's tie is present. HashSet / "
-             "HashTable histories: valid_after_any_panic_set_table (Hb.Props.C02SetTable, re-checked by C02's check); serde visitors "
+             "HashTable histories: valid_after_any_panic_set_table (Hb.Props.C02SetTable, re-checked by C02's check); unwinding ledger of "
+             "HashSet-pair histories: Hb.Props.C04SetLedger (lost only by an unwound clear after a destructor panic; no set call "
+             "leaks a block); table histories: Hb.Props.C03SetTable; serde visitors "
              "under panics: Hb.Props.C20Safe (re-checked by C20's check). Panics "
              "inside Drop while already unwinding abort the process by Rust's rules and are excluded.",
     ),
     "C06": dict(
         module="Hb.Props.C06",
         more_modules=["Hb.Props.C06History"],
-        ties=[("scen", "table", 300, 10000), ("scen", "table-churn", 120, 4000), ("scen", "panic-table", 4, 100)],
+        ties=[("scen", "table", 300, 10000), ("scen", "table-churn", 120, 4000), ("scen", "panic-table", 4, 100), ("t1", {})],
         backends=["sse2", "portable"],
         design="§7 C06",
         text="Lean HISTORY theorem table_history_refines (Hb.Props.C06History): every history of the 17 HashTable calls (find, find_mut, "
@@ -394,7 +401,7 @@ PROPS = {
     ),
     "C14": dict(
         module="Hb.Props.C14",
-        ties=[("scen", "entry-full", 250, 8000), ("scen", "entry", 250, 8000), ("scen", "entry-sat", 150, 5000), ("scen", "set", 150, 5000), ("scen", "panic-entry", 4, 100)],
+        ties=[("scen", "entry-full", 250, 8000), ("scen", "entry", 250, 8000), ("scen", "entry-sat", 150, 5000), ("scen", "set", 150, 5000), ("scen", "panic-entry", 4, 100), ("t1", {})],
         backends=["sse2", "portable"],
         design="§7 C14",
         text="Lean theorems for every state satisfying the representation invariant (in particular growth_left = 0, tombstone-"
@@ -472,7 +479,7 @@ PROPS = {
     "C10": dict(
         module="Hb.Props.C10",
         ties=[("scen", "mixed", 300, 10000), ("scen", "retain-chain", 120, 4000), ("scen", "iter", 150, 4000), ("scen", "table", 150, 5000),
-              ("scen", "set", 120, 4000), ("scen", "panic-mixed", 4, 120), ("custom", extras_oracle)],
+              ("scen", "set", 120, 4000), ("scen", "panic-mixed", 4, 120), ("custom", extras_oracle), ("t1", {})],
         backends=["sse2", "portable"],
         design="§7 C10",
         text="Lean theorems for every environment (arbitrary per-call predicate answers incl. panics) and every table state "
@@ -491,7 +498,7 @@ PROPS = {
         module="Hb.Props.C11",
         more_modules=["Hb.Props.C11History"],
         ties=[("scen", "clone", 250, 8000), ("scen", "mixed", 200, 6000), ("scen", "table", 100, 3000), ("scen", "set", 100, 3000),
-              ("scen", "panic-mixed", 4, 120), ("custom", extras_oracle)],
+              ("scen", "panic-mixed", 4, 120), ("custom", extras_oracle), ("t1", {})],
         backends=["sse2", "portable"],
         design="§7 C11",
         text="Lean HISTORY theorems over a PAIR of maps (Hb.Props.C11History; calls: every single-map call of C01's history on either "
@@ -679,6 +686,36 @@ def run_tie(pid, cfg, tie, tier, seed, workdir, stats):
             tie[1](pid, tier, seed, workdir, stats)
 
 
+# Which properties a broken T1 item (generated definition / GenEq theorem, matched by name) bears on. An item that
+# matches no pattern bears on every property that has the T1 tie.
+T1_GROUPS = [
+    (r"capacity_to_buckets|bucket_mask_to_capacity|RawTable_capacity|reserve|shrink_to|fallible_with_capacity|resize_inner|new_uninitialized|RawTableInner_new|_len_|is_empty|buckets|num_ctrl_bytes",
+     {"C08", "C12", "C13", "C17", "C01", "C02"}),
+    (r"calculate_layout|TableLayout", {"C17", "C12", "C02", "C08"}),
+    (r"insert|record_item|erase|find_|fix_insert|probe|h1|move_next|is_in_same_group|set_ctrl|index",
+     {"C01", "C02", "C05", "C06", "C13", "C14"}),
+    (r"rehash_in_place|clear|RawDrain", {"C13", "C10", "C04", "C03", "C02", "C01", "C06"}),
+    (r"clone_from", {"C11", "C03", "C04", "C02"}),
+    (r"replace_bucket_with", {"C14", "C04", "C02", "C13"}),
+    (r"Tag|Group|BitMask|match_|repeat|generic|sse2|Generic|Sse2|convert_special", {"C18", "C01", "C06"}),
+    (r"cautious|extend", {"C20", "C13", "C01"}),
+]
+
+
+def t1_bears_on(pid, log):
+    """Names of broken T1 items in a translator / lake log, and whether any of them bears on `pid`."""
+    names = set(re.findall(r"gen_(\w+?)(?:_eq|_model)?\b", log)) | set(re.findall(r"fn (\w+)", log)) | set(re.findall(r"'(\w+(?:\.\w+)+)'", log))
+    names = {n for n in names if n and n not in ("", "fn")}
+    if not names:
+        return names, True
+    hit = False
+    for n in names:
+        groups = [props for pat, props in T1_GROUPS if re.search(pat, n)]
+        if not groups or any(pid in g for g in groups):
+            hit = True
+    return names, hit
+
+
 def t1_tie(pid, stats, ctx=None):
     """Regenerate Hb/Gen/Pure.lean from /repo and re-check Gen = Model (if the translator exists)."""
     tr = os.path.join(core.VERIF, "translate", "rust2lean.py")
@@ -689,6 +726,10 @@ def t1_tie(pid, stats, ctx=None):
     out = os.path.join(core.LEAN, "Hb", "Gen", "Pure.lean")
     rc, log = core.sh(["python3-vt", tr, "--repo", core.REPO, "--out", out], timeout=600)
     if rc != 0:
+        names, bears = t1_bears_on(pid, log)
+        if not bears:
+            stats["notes"].append("T1: translation of %s failed (source changed shape); these items do not bear on %s — tie not counted against it" % (sorted(names), pid))
+            return
         if ctx is not None:
             tier, seed, workdir = ctx
             try:
@@ -703,6 +744,25 @@ def t1_tie(pid, stats, ctx=None):
     stats["notes"].append("T1: Hb/Gen/Pure.lean regenerated from /repo, Hb.Proofs.GenEq rebuilt")
     if rc != 0:
         errs = "\n".join(l for l in log.splitlines() if "error" in l)[:3000]
+        # attribute: the GenEq theorems that no longer check are named by the line numbers of the errors
+        failing = set()
+        try:
+            src_lines = open(geneq).read().split("\n")
+            for m in re.finditer(r"GenEq\.lean:(\d+):", log):
+                ln = int(m.group(1)) - 1
+                while ln >= 0 and not re.match(r"\s*(theorem|lemma|example)\b", src_lines[ln]):
+                    ln -= 1
+                if ln >= 0:
+                    mm = re.match(r"\s*(?:theorem|lemma)\s+(\S+)", src_lines[ln])
+                    failing.add(mm.group(1) if mm else "example")
+        except Exception:
+            pass
+        names, bears = t1_bears_on(pid, " ".join(failing)) if failing else (set(), True)
+        if failing and not bears:
+            stats["notes"].append("T1: %s no longer check; these items do not bear on %s — tie not counted against it" % (sorted(failing), pid))
+            return
+        if failing:
+            errs = "theorems that no longer check: %s\n" % ", ".join(sorted(failing)) + errs
         # the tie is broken: search for a concrete failing input by evaluating the real functions on the
         # boundary-dense pure-function batch (direct arithmetic oracle, panics and aborts are journalled)
         if ctx is not None:
